@@ -17,18 +17,18 @@ var StoreNames = []string{"acc", "relayer", "bitcoin", "locking", "goat", "conse
 
 // Snap is the observable committed state of one node.
 type Snap struct {
-	Height  int64
-	AppHash []byte
-	Stores  map[string]string // store name -> hex commit hash
-	Locking lockingtypes.GenesisState
-	Relayer relayertypes.GenesisState
-	Bitcoin bitcointypes.GenesisState
-	Goat    goatxtypes.GenesisState
-	Auth    authtypes.GenesisState
-	RawJSON map[string]json.RawMessage
-	ExpVals []cmttypes.GenesisValidator // validators as ExportAppStateAndValidators reports them
+	Height    int64
+	AppHash   []byte
+	Stores    map[string]string // store name -> hex commit hash
+	Locking   lockingtypes.GenesisState
+	Relayer   relayertypes.GenesisState
+	Bitcoin   bitcointypes.GenesisState
+	Goat      goatxtypes.GenesisState
+	Auth      authtypes.GenesisState
+	RawJSON   map[string]json.RawMessage
+	ExpVals   []cmttypes.GenesisValidator // validators as ExportAppStateAndValidators reports them
 	ExpHeight int64
-	Export  []byte
+	Export    []byte
 }
 
 // StoreHashes returns the commit hash of every store.
